@@ -786,20 +786,28 @@ def bounded_retry(chk, P, prefix):
 
     def retry_next():
         b = P.body("emit_batcher::Retry::next")
-        # current is incremented on every path, result is current <= max
+        # self.current += 1 (unconditionally, by exactly one), then `self.current <= self.max`: Retry::new(n) grants exactly n retries
         incs = [s for bb, j, s in b.statements(normal_only=True) if s["k"] == "assign" and "p" in s["place"]
                 and any(isinstance(p, dict) and p.get("n") == "current" for p in s["place"]["p"])]
-        if len(incs) < 1:
-            return False, "Retry::next does not advance the attempt counter", [], b.span
+        if len(incs) != 1:
+            return False, "Retry::next must advance the attempt counter exactly once", [], b.span
+        io = b.origin(incs[0]["rv"]["op"]) if incs[0]["rv"]["k"] == "use" else None
+        x = io
+        while x is not None and x[0] == "field":
+            x = x[1]
+        if not (x is not None and x[0] == "binop" and x[1].startswith("Add") and mir.o_field_path(x[2])[1] == ["current"] and mir.o_const_value(x[3]) == 1):
+            return False, ("the attempt counter is advanced as %s, not `current + 1`: a clamped or otherwise adjusted counter changes how many "
+                           "retries the configured maximum grants" % (o_str(io) if io else "?")), [], b.span
         r = b.origin(0)
-        if not (r[0] == "binop" and r[1] in ("Le", "Lt")):
-            return False, "Retry::next returns %s, not a comparison of the counter with the maximum" % o_str(r), [], b.span
+        if not (r[0] == "binop" and r[1] == "Le"):
+            return False, ("Retry::next returns %s: it must be `current <= max` after the increment, so that a maximum of n grants exactly n "
+                           "retries (with `<` the last one is lost)" % o_str(r)), [], b.span
         ln = mir.o_field_path(r[2])[1]
         rn = mir.o_field_path(r[3])[1]
         if ln != ["current"] or rn != ["max"]:
             return False, "compares %s with %s" % (o_str(r[2]), o_str(r[3])), [], b.span
         return True, "", [b.span]
-    chk.ob("%s.R2:Retry::next" % prefix, "Retry::next advances the counter on every call and compares it with the maximum", retry_next)
+    chk.ob("%s.R2:Retry::next" % prefix, "Retry::next adds one to the counter on every call and returns `current <= max`: a maximum of n grants exactly n retries", retry_next)
 
     def delay_next():
         b = P.body("emit_batcher::Delay::next")
